@@ -453,7 +453,9 @@ def r_branch(ctx: Ctx, model):
                 continue        # from_isotherm hands everything to the constructor, whatever the model argument
             I = make_interp(model)
             sink, datalog = {}, []
-            I.libmeth[("PIso", "to_dict")] = lambda I, v, a, k, n: {"material": "m", "loading_unit": "mmol"}
+            # (a template that is itself a model isotherm carries its own branch / model name in its dictionary: the arguments must win)
+            I.libmeth[("PIso", "to_dict")] = lambda I, v, a, k, n: {"material": "m", "loading_unit": "mmol", "branch": "ads", "model": "Template"} \
+                if entry == "from_isotherm" else {"material": "m", "loading_unit": "mmol"}
             I.libmeth[("PIso", "data")] = lambda I, v, a, k, n: (datalog.append(k.get("branch", a[0] if a else "<default>")),
                                                                    Obj(kind="Data", label=f"data[{k.get('branch', a[0] if a else '<default>')}]"))[1]
 
